@@ -1,7 +1,8 @@
 (* C09 - Sequence-dependent setup times are always paid, using the right matrix entry. *)
 From Coq Require Import List ZArith Bool.
 From JSL Require Import Base.Res Base.ListX SM.Types SM.Util SM.Handler SM.Step SM.Inv SM.Example
-  SMP.Post SMP.PostApply SMP.Offers SMP.ClockStep.
+  SMP.Post SMP.PostApply SMP.Offers SMP.ClockStep SMP.Clock SM.Middleware SM.ExampleShift SMP.StepInv SMP.LiftSide
+  SMP.OutputDone SMP.Reflect SMP.FeasView SMP.Feasible SMP.LiftProv SMP.ProvBatch SMP.Durations SMP.Setup.
 Import ListNotations.
 
 (* Every IDLE->SETUP transition that is applied (for any instance, oracle/seed, state): the setup time
@@ -64,4 +65,101 @@ Theorem C09_tool_frame_setup_working :
 Proof.
   intros. destruct (post_setup_working sigma i x tr m ms x' H H0) as [j [jb [k [oc [d [_ [_ [_ [_ [_ [Hm _]]]]]]]]]]].
   eexists; split; eauto.
+Qed.
+
+(* ---------- whole runs (instances whose machine post-buffers are FLEX or of capacity one) ---------- *)
+Definition initial_tool (x0 : state) (m : nat) : nat :=
+  match nth_error (s_machs x0) m with Some ms => m_tool ms | None => O end.
+
+(* In every state of every run of the middleware (any instance of the class, oracle/seed, action sequence, loop fuel)
+   there is, for every machine, an enumeration (newest first) of exactly the operations that were started on it
+   (SEQ: sq_in / sq_mem / sq_nodup) such that
+   - the mounted tool is the tool of the newest one, the initial tool if there is none (sq_tool);
+   - of two neighbours the older one is DONE and ended before the newer one started (sq_adj), and for a deterministic
+     matrix entry sd = matrix[(tool of the older, tool of the newer)] the newer one's PROCESSING started at
+     end(older) + sd or later - while it is still being set up the machine is blocked until end(older) + sd or later (GAP);
+   - the oldest one is separated in the same way from the start of the episode by matrix[(initial tool, its tool)]
+     (sq_first). *)
+Theorem C09_setup_sequence_reachable_flex :
+  forall (sigma : oracle) (i : inst) (fuel : nat) (x0 : state) (joker0 : Z) (ta : bool) (r : result) (m : mw),
+    inst_nonneg_b i = true -> flex_post_b i = true ->
+    clock_b x0 = true -> wfs_b i x0 = true -> fresh2_b i x0 = true -> nodep_b x0 = true ->
+    reach sigma i fuel x0 joker0 ta r m ->
+    exists g, SEQ i (initial_tool x0) (s_now x0) (r_x r) g.
+Proof.
+  intros sigma i fuel x0 joker0 ta r m Hnn Hf C W Fr Dn H.
+  apply (flex_setup_sequence sigma i Hnn Hf (initial_tool x0) (s_now x0) fuel x0 joker0 ta r m); auto.
+  intros m0 ms Hms. unfold initial_tool. rewrite Hms. reflexivity.
+Qed.
+Print Assumptions C09_setup_sequence_reachable_flex.
+
+Theorem C09_setup_sequence_micro_states_flex :
+  forall (sigma : oracle) (i : inst) (fuel : nat) (x0 : state) (joker0 : Z) (ta : bool) (r : result) (m : mw)
+         (a : Z) (r' : result) (m' : mw) (lg : mlog),
+    inst_nonneg_b i = true -> flex_post_b i = true ->
+    clock_b x0 = true -> wfs_b i x0 = true -> fresh2_b i x0 = true -> nodep_b x0 = true ->
+    reach sigma i fuel x0 joker0 ta r m -> mw_step sigma i fuel r m a = MOk r' m' lg ->
+    forall tr y, In (tr, y) lg -> exists g, SEQ i (initial_tool x0) (s_now x0) y g.
+Proof.
+  intros sigma i fuel x0 joker0 ta r m a r' m' lg Hnn Hf C W Fr Dn H Hm tr y Hin.
+  apply (flex_micro_setup_sequence sigma i Hnn Hf (initial_tool x0) (s_now x0) fuel x0 joker0 ta r m a r' m' lg) with (tr := tr); auto.
+  intros m0 ms Hms. unfold initial_tool. rewrite Hms. reflexivity.
+Qed.
+Print Assumptions C09_setup_sequence_micro_states_flex.
+
+(* the same on the records alone (clause setup_gap_b of SM/Inv.v, evaluated on every implementation state by the
+   monitors): two DONE operations p, o of one machine, p started strictly before o and no other started operation of
+   that machine started in between: start(o) >= end(p) + matrix[(tool p, tool o)] for a deterministic entry *)
+Theorem C09_consecutive_operations_separated_flex :
+  forall (sigma : oracle) (i : inst) (fuel : nat) (x0 : state) (joker0 : Z) (ta : bool) (r : result) (m : mw),
+    inst_nonneg_b i = true -> flex_post_b i = true ->
+    clock_b x0 = true -> wfs_b i x0 = true -> fresh2_b i x0 = true -> nodep_b x0 = true ->
+    reach sigma i fuel x0 joker0 ta r m -> setup_gap_b i (r_x r) = true.
+Proof.
+  intros sigma i fuel x0 joker0 ta r m Hnn Hf C W Fr Dn H.
+  apply (flex_setup_gap sigma i Hnn Hf (initial_tool x0) (s_now x0) fuel x0 joker0 ta r m); auto.
+  intros m0 ms Hms. unfold initial_tool. rewrite Hms. reflexivity.
+Qed.
+Print Assumptions C09_consecutive_operations_separated_flex.
+
+Theorem C09_consecutive_operations_separated_micro_states_flex :
+  forall (sigma : oracle) (i : inst) (fuel : nat) (x0 : state) (joker0 : Z) (ta : bool) (r : result) (m : mw)
+         (a : Z) (r' : result) (m' : mw) (lg : mlog),
+    inst_nonneg_b i = true -> flex_post_b i = true ->
+    clock_b x0 = true -> wfs_b i x0 = true -> fresh2_b i x0 = true -> nodep_b x0 = true ->
+    reach sigma i fuel x0 joker0 ta r m -> mw_step sigma i fuel r m a = MOk r' m' lg ->
+    forall tr y, In (tr, y) lg -> setup_gap_b i y = true.
+Proof.
+  intros sigma i fuel x0 joker0 ta r m a r' m' lg Hnn Hf C W Fr Dn H Hm tr y Hin.
+  apply (flex_micro_setup_gap sigma i Hnn Hf (initial_tool x0) (s_now x0) fuel x0 joker0 ta r m a r' m' lg) with (tr := tr); auto.
+  intros m0 ms Hms. unfold initial_tool. rewrite Hms. reflexivity.
+Qed.
+Print Assumptions C09_consecutive_operations_separated_micro_states_flex.
+
+(* the unfolded reading of one neighbouring pair, both DONE *)
+Theorem C09_neighbours_gap :
+  forall i tool0 t0 x g m n c2 c1 o2 oc1 oc2 mc sd,
+    SEQ i tool0 t0 x g -> nth_error (g m) n = Some c2 -> nth_error (g m) (S n) = Some c1 ->
+    crec x c2 o2 -> o_st o2 = ODone ->
+    get_opcfg i (fst c1) (snd c1) = Ok oc1 -> get_opcfg i (fst c2) (snd c2) = Ok oc2 -> nth_error (i_machs i) m = Some mc ->
+    setup_lookup (mc_setup mc) (oc_tool oc1) (oc_tool oc2) = Some (Det sd) ->
+    exists o1 e s, crec x c1 o1 /\ o_st o1 = ODone /\ o_end o1 = Time e /\ o_start o2 = Time s /\ (e + sd <= s)%Z.
+Proof.
+  intros i tool0 t0 x g m n c2 c1 o2 oc1 oc2 mc sd Sq H2 H1 Ho2 D2 Hoc1 Hoc2 Hmc Hs.
+  destruct (sq_adj _ _ _ _ _ Sq m n c2 c1 H2 H1) as [o1 [e [A1 [A2 [A3 [_ A5]]]]]].
+  destruct (A5 (oc_tool oc1) ltac:(exists oc1; auto) o2 oc2 mc sd Ho2 Hoc2 Hmc Hs) as [G1 _]. destruct (G1 D2) as [s [Es Ls]].
+  exists o1, e, s. auto.
+Qed.
+Print Assumptions C09_neighbours_gap.
+
+(* non-vacuity: a run of a compiled instance with asymmetric setup matrices (machine 0: 0->1 costs 3, 1->0 costs 1)
+   ends (no offers left) with two DONE operations on machine 0 - (0,1) over [3,3] with tool 0, then (1,1) over [9,13] with
+   tool 1: 9 >= 3 + 3 - and the clause holds there *)
+Example C09_setup_gap_nontrivial :
+  exists r m, reach sh_sigma sh_inst 400 sh_init0 3%Z true r m
+              /\ r_offers r = [] /\ setup_gap_b sh_inst (r_x r) = true
+              /\ 2 <= length (filter (fun q => started_on 0 q && is_ostate ODone (snd q)) (all_recs (r_x r))).
+Proof.
+  destruct (runG sh_sigma sh_inst side2 400 sh_init0 3%Z true (repeat 1%Z 5)) as [[r m]|] eqn:E; [|vm_compute in E; discriminate].
+  exists r, m. split; [eapply reachG_reach; eapply runG_reach; exact E|]. vm_compute in E. inversion E; subst. vm_compute. repeat split; auto.
 Qed.
